@@ -1,3 +1,28 @@
+/-
+  C03 — Instant → civil → instant round trip recovers the instant (table level, no-shift path).
+-/
 import Cctz.Model.Tz
+import Cctz.Spec.TableSem
+import Cctz.Proofs.TableCivil
+
 namespace Cctz.C03
+open Cctz Cctz.Tz Cctz.Spec
+
+/-- looking up the civil second that lookup(t) reports recovers t: UNIQUE with pre = t, or REPEATED
+with t one of pre/post; never SKIPPED -/
+def roundtrip_statement : Prop :=
+  ∀ (z : Zone) (h h' : Nat) (t : Int), TableWF z → CivilCols z → Separated z → inI64 t →
+    (z.extended = false ∨ t < timeOf z (z.transitions.size - 1)) →
+    let cs := (breakTime z h t).val.1.cs
+    NoShift z cs →
+    let r := (makeTime z h' cs).val.1
+    (r.kind = .unique ∧ r.pre = t) ∨ (r.kind = .repeated ∧ (r.pre = t ∨ r.post = t))
+
+/-- conversely every unsaturated instant returned for a UNIQUE or REPEATED civil second displays it -/
+def converse_statement : Prop :=
+  ∀ (z : Zone) (h : Nat) (cs : Fields), TableWF z → CivilCols z → Separated z → Valid cs → NoShift z cs →
+    let r := (makeTime z h cs).val.1
+    (r.kind = .unique → i64min < r.pre → r.pre < i64max → shows z r.pre (secNum cs)) ∧
+    (r.kind = .repeated → shows z r.pre (secNum cs) ∧ shows z r.post (secNum cs))
+
 end Cctz.C03
